@@ -305,6 +305,9 @@ func coqObs(o obsT) string {
 func coqParseCase(in *input, o obsT) string {
 	f, d := coqFS(in)
 	exp := "None"
+	if in.ExpectAccept {
+		exp = "(Some (0%N, (U [], 0), []))"
+	}
 	if in.HasExpect {
 		exp = fmt.Sprintf("(Some (%d%%N, %s, %s))", in.ExpectCls, coqPos(in.ExpectPos), coqPosList(in.ExpectChain))
 	}
